@@ -791,8 +791,8 @@ func laws18(r *Run, t *tree18, tb *tables18, g geo18, initial []fsEntry, run *lo
 					viol("writes_confined", "C18/write-outside:"+e.Op, fmt.Sprintf("%s %q is outside newDir %q (fault %d)", e.Op, e.Path, g.absNewDir, run.Fault))
 				}
 			case "RemoveAll":
-				// RemoveAll("") is the no-op of the createNewDir defect; anything else must be newDir itself
-				if e.Path != "" && lexAbs(e.Path) != g.absNewDir {
+				// (RemoveAll("") was the no-op of the createNewDir defect repaired by d268200)
+				if e.Path == "" || lexAbs(e.Path) != g.absNewDir {
 					viol("writes_confined", "C18/write-outside:RemoveAll", fmt.Sprintf("RemoveAll %q, newDir %q (fault %d)", e.Path, g.absNewDir, run.Fault))
 				}
 			}
@@ -825,7 +825,7 @@ func laws18(r *Run, t *tree18, tb *tables18, g geo18, initial []fsEntry, run *lo
 		case !left:
 			r.Count("law", "all-or-nothing:held")
 		case cleanupFaulted:
-			r.Count("law", "all-or-nothing:exempt(cleanup itself faulted)")
+			r.Count("law", "all-or-nothing:out-of-domain(cleanup RemoveAll itself failed)")
 		default:
 			class := "C18/newdir-left:other:" + run.Cls
 			if fe != nil {
